@@ -102,11 +102,12 @@ Section gen_facts.
   Variable e : env.
   Variable conv_common : common.
   Variable out_pkg : N.
+  Variable exc : list N.
   Variable FT : ftable.
   Variable ext : list N.
   Variable smeths : list (N * rstr * N).
-  Notation build_no_lookup := (build_no_lookup e conv_common out_pkg FT ext smeths).
-  Notation assign_no_lookup := (assign_no_lookup e conv_common out_pkg FT ext smeths).
+  Notation build_no_lookup := (build_no_lookup e conv_common out_pkg exc FT ext smeths).
+  Notation assign_no_lookup := (assign_no_lookup e conv_common out_pkg exc FT ext smeths).
   Notation has_method := (has_method FT ext).
   Notation overlap_check := (overlap_check e).
 
@@ -150,7 +151,7 @@ Section gen_facts.
   Qed.
 
   (* unfolding equations (checked by reflexivity against Gen.v) *)
-  Notation build := (build e conv_common out_pkg FT ext smeths).
+  Notation build := (build e conv_common out_pkg exc FT ext smeths).
   Lemma bnl_rule3 f ctx lv s t st :
     overlap_check ctx (b_tab st) s t = false ->
     first_rule e (has_method (b_tab st)) (bc_conf ctx) s t = Some 3 ->
